@@ -58,7 +58,8 @@ theorem C08_at_most_one {w : World} {picks : List Nat} {r : Result}
   · rw [hr]; simp
 
 /-- **C08_success.** A task reported SUCCESS was started from a session in which its function ran to
-completion (the body call did not raise); its body is logged exactly once in the whole build; and
+completion (the body call did not raise); it ran **once**: its body is logged exactly once in the whole
+build (`r.log.count t = 1`, from the at-most-once argument of C01 — picks are duplicate-free); and
 all its declared products exist when the build ends. -/
 theorem C08_success {w : World} {picks : List Nat} {r : Result}
     (hdag : createDag P cfg = .ok (g, marks)) (hb : build F P cfg w picks = .ok r)
@@ -232,13 +233,6 @@ def UserFaults (fl : Faults) : Prop :=
   (∀ e, fl.configure = some e → ∃ c, e = .exn c) ∧ (∀ ph e, fl.phase ph = some e → ∃ c, e = .exn c) ∧
   fl.unconfigure = none ∧
   (∀ e, fl.importRaises = some e → (∃ c, e = .exn c) ∨ e = .base "SystemExit")
-
-theorem importExc_user {e : Exc} (h : (∃ c, e = .exn c) ∨ e = .base "SystemExit") :
-    importExc e = .exn Generated.collectLogRaises := by
-  rcases h with ⟨c, rfl⟩ | rfl
-  · unfold importExc
-    rw [handles_exception _ c (by decide)]; rfl
-  · decide
 
 /-- **C08_returns_full.** Whatever ordinary exception a phase raises (configuration, header,
 collection, graph, execution — alone or in combination), whatever the tasks do, and also when a task
@@ -440,6 +434,122 @@ theorem C08_exit_import {w : World} {picks : List Nat} {fl : Faults} {r : TopRes
   subst hb
   exact ⟨rfl, (by decide : exitCode "COLLECTION_FAILED" = 3), rfl, rfl, rfl, rfl⟩
 
+/-- The exit-code table: the code of the first phase that fails (configuration; then header, collection —
+a fault of the hook or a module that cannot be imported —, graph, execution hook, in the order of
+`Generated.buildPhases`), else 1 iff some task is reported FAIL, else 0. -/
+def tableExit (fl : Faults) (dagOk anyFail : Bool) : Nat :=
+  match fl.configure with
+  | some _ => exitCode Generated.configFailCode
+  | none =>
+  match fl.phase "header" with
+  | some e => classCode e
+  | none =>
+  match fl.phase "collect" with
+  | some e => classCode e
+  | none =>
+  match fl.importRaises with
+  | some e => classCode (importExc e)
+  | none =>
+  if (fl.phase "dag").isSome || !dagOk then exitCode "DAG_FAILED"
+  else match fl.phase "execute" with
+    | some e => classCode e
+    | none => if anyFail then exitCode "FAILED" else exitCode "OK"
+
+/-- **C08_exit_table.** For every combination of user-code faults (ordinary exceptions in any phase,
+`SystemExit` at import), every project with distinct task ids, options, world and accepted schedule:
+`build()` returns and its exit code is the one of `tableExit` — 2 for a configuration error, otherwise
+the code of the first failing phase (3 collection, 4 graph, by exception class for hook faults),
+otherwise 1 iff some task is reported FAIL and 0 iff none is. Subsumes `C08_exit_config`,
+`C08_exit_collect`, `C08_exit_import`, `C08_exit_dag`, `C08_exit_execute`, `C08_exit_zero_iff`. -/
+theorem C08_exit_table {w : World} {picks : List Nat} {fl : Faults} {r : TopResult}
+    (hf : UserFaults fl) (hids : (P.tasks.map (·.id)).Nodup) (hb : buildTop F P cfg w picks fl = .ok r) :
+    r.raised = false ∧
+    r.exit = tableExit fl (match createDag P cfg with | .ok _ => true | .error _ => false)
+                          (r.reports.any (fun x => x.2 == Outcome.fail)) := by
+  refine ⟨C08_returns_full hf hb, ?_⟩
+  obtain ⟨hc, hp, hu, hi⟩ := hf
+  unfold buildTop at hb
+  unfold tableExit
+  cases hcf : fl.configure with
+  | some e =>
+    obtain ⟨c, rfl⟩ := hc e hcf
+    have : handles Generated.configHandler (.exn c) = true := handles_exception _ c (by decide)
+    simp only [hcf, this, if_true, Except.ok.injEq] at hb
+    subst hb; rfl
+  | none =>
+  cases hh : fl.phase "header" with
+  | some e =>
+    obtain ⟨c, rfl⟩ := hp _ e hh
+    obtain ⟨code, hcode, hcc⟩ := classCode_exn c
+    simp only [hcf, Generated.buildPhases, List.foldl, runPhase, hh, Option.isSome_none, Option.isSome_some, Bool.or_self,
+      Bool.false_eq_true, Bool.true_or, reduceIte, String.reduceBEq, hcode, hu, Generated.unconfigureAfterLadder,
+      Bool.not_true, Bool.or_false, Except.ok.injEq] at hb
+    subst hb; simp only [hcc]
+  | none =>
+  cases hcol : fl.phase "collect" with
+  | some e =>
+    obtain ⟨c, rfl⟩ := hp _ e hcol
+    obtain ⟨code, hcode, hcc⟩ := classCode_exn c
+    simp only [hcf, Generated.buildPhases, List.foldl, runPhase, hh, hcol, Option.isSome_none, Option.isSome_some, Bool.or_self,
+      Bool.false_eq_true, Bool.true_or, reduceIte, String.reduceBEq, hcode, hu, Generated.unconfigureAfterLadder,
+      Bool.not_true, Bool.or_false, Except.ok.injEq] at hb
+    subst hb; simp only [hcc]
+  | none =>
+  cases him : fl.importRaises with
+  | some e =>
+    have hie := importExc_user (hi e him)
+    obtain ⟨code, hcode, hcc⟩ := classCode_exn Generated.collectLogRaises
+    simp only [hcf, Generated.buildPhases, List.foldl, runPhase, hh, hcol, him, hie, Option.isSome_none, Option.isSome_some,
+      Bool.or_self, Bool.false_eq_true, Bool.true_or, reduceIte, String.reduceBEq, hcode, hu,
+      Generated.unconfigureAfterLadder, Bool.not_true, Bool.or_false, Except.ok.injEq] at hb
+    subst hb; simp only [hie, hcc]
+  | none =>
+  have hl4 : ladderFind Generated.buildLadder (.exn "ResolvingDependenciesError") = some "DAG_FAILED" := by decide
+  cases hd : fl.phase "dag" with
+  | some e =>
+    obtain ⟨c, rfl⟩ := hp _ e hd
+    simp only [hcf, him, Generated.buildPhases, List.foldl, runPhase, hh, hcol, hd, dagExc, Generated.dagWrapsException,
+      Option.isSome_none, Option.isSome_some, Bool.or_self, Bool.false_eq_true, Bool.true_or, reduceIte, String.reduceBEq,
+      hl4, hu, Generated.unconfigureAfterLadder, Bool.not_true, Bool.or_false, Except.ok.injEq] at hb
+    subst hb; simp
+  | none =>
+  cases hcd : createDag P cfg with
+  | error e =>
+    simp only [hcf, him, Generated.buildPhases, List.foldl, runPhase, hh, hcol, hd, hcd, dagExc, Generated.dagWrapsException,
+      Option.isSome_none, Option.isSome_some, Bool.or_self, Bool.false_eq_true, Bool.true_or, reduceIte, String.reduceBEq,
+      hl4, hu, Generated.unconfigureAfterLadder, Bool.not_true, Bool.or_false, Except.ok.injEq] at hb
+    subst hb; simp
+  | ok d =>
+  obtain ⟨g, marks⟩ := d
+  cases hex : fl.phase "execute" with
+  | some e =>
+    obtain ⟨c, rfl⟩ := hp _ e hex
+    obtain ⟨code, hcode, hcc⟩ := classCode_exn c
+    simp only [hcf, him, Generated.buildPhases, List.foldl, runPhase, hh, hcol, hd, hcd, hex,
+      Option.isSome_none, Option.isSome_some, Bool.or_self, Bool.false_eq_true, Bool.true_or, reduceIte, String.reduceBEq,
+      hcode, hu, Generated.unconfigureAfterLadder, Bool.not_true, Bool.or_false, Except.ok.injEq] at hb
+    subst hb; simp [hcc]
+  | none =>
+  obtain ⟨so, hso⟩ := fromDag_ok_of_createDag hcd (prioFn P)
+  cases hl : buildLoop F P g cfg so { w := w, skipMarks := marks } picks with
+  | error e =>
+    simp only [hcf, him, Generated.buildPhases, List.foldl, runPhase, hh, hcol, hd, hcd, hex, hso, hl,
+      Option.isSome_none, Option.isSome_some, Bool.or_self, Bool.false_eq_true, Bool.true_or, reduceIte, String.reduceBEq] at hb
+    cases hb
+  | ok pr =>
+    obtain ⟨so', s⟩ := pr
+    have hcr : s.crashed = false := (run_of_buildLoop _ _ _ _ _ hl).no_crash hcd hids rfl
+    have hlf : ladderFind Generated.buildLadder (.exn "ExecutionError") = some "FAILED" := by decide
+    by_cases hfl : (s.reports.any fun r => r.2 == Outcome.fail) = true
+    · simp only [hcf, him, Generated.buildPhases, List.foldl, runPhase, hh, hcol, hd, hcd, hex, hso, hl, hcr, hfl, hlf,
+        Option.isSome_none, Option.isSome_some, Bool.or_self, Bool.false_eq_true, Bool.true_or, reduceIte, String.reduceBEq,
+        hu, Generated.unconfigureAfterLadder, Bool.not_true, Bool.or_false, Except.ok.injEq] at hb
+      subst hb; simp [hfl]
+    · simp only [hcf, him, Generated.buildPhases, List.foldl, runPhase, hh, hcol, hd, hcd, hex, hso, hl, hcr, hfl,
+        Option.isSome_none, Option.isSome_some, Bool.or_self, Bool.false_eq_true, Bool.true_or, reduceIte, String.reduceBEq,
+        hu, Generated.unconfigureAfterLadder, Bool.not_true, Bool.or_false, Except.ok.injEq] at hb
+      subst hb; simp [hfl]
+
 /-- **C08_escapes_scope.** Exactly which import-time exceptions still escape from `build()`: the
 `BaseException` subclasses that `pytask_collect_file_protocol` does not name — `KeyboardInterrupt` (by
 design: the user interrupts the run), `GeneratorExit`, a bare `BaseException`. They are not errors of
@@ -500,6 +610,14 @@ example :
         (fun r => (r.raised, r.exit, r.unconfigured))) = some (false, 3, true) ∧
     ((buildTop c08F c08P {} c08W [] { importRaises := some (.base "KeyboardInterrupt") }).toOption.map
         (fun r => r.raised)) = some true := by
+  decide
+
+/-- The table on concrete fault combinations: the earliest failing phase decides. -/
+example :
+    tableExit { configure := some (.exn "ValueError"), importRaises := some (.base "SystemExit") } true true = 2 ∧
+    tableExit { importRaises := some (.base "SystemExit"), phase := fun n => if n == "dag" then some (.exn "KeyError") else none } true false = 3 ∧
+    tableExit { phase := fun n => if n == "dag" then some (.exn "KeyError") else none } true true = 4 ∧
+    tableExit {} false false = 4 ∧ tableExit {} true true = 1 ∧ tableExit {} true false = 0 := by
   decide
 
 end Pytask
